@@ -131,7 +131,7 @@ Print Assumptions c13_failed_not_resumed.
    report was answered with PAUSE (the tuner then calls on_trial_remove and on_trial_error), the trial
    stays promotable and IS resumed later. Witness replayed on the real HyperbandScheduler by the
    driver (finding F-C13-1). *)
-Definition cex_cfg := {| rung_levels := [1; 3]; max_t := 9; pol := Rungs; myopic := false; sty := Promotion; maximize := false |}.
+Definition cex_cfg := {| rung_levels := [1; 3]; max_t := 9; pol := Rungs; myopic := false; sty := Promotion; maximize := false; reward_const := 1 |}.
 Definition cex_hist := [Start 0 0%nat; Report 0 1 (1 # 10) true; Fail 0; Resume 0 0%nat].
 Theorem c13_failed_resumed_same_poll_refuted :
   wf_config cex_cfg = true /\ legal_hist cex_cfg init cex_hist /\
